@@ -329,7 +329,9 @@ def r4_raii(F, R, M, rule='R4'):
                     roles[fname] = 'param%d' % op[1]
             allocs = [e for e in p.effects if e[0] == 'call' and e[4].get('method') == 'dma_alloc']
             # pages passed to alloc is the pages parameter stored
-            zero_guard = any(c_[0][0] == 'bin' and c_[0][1] in ('Eq', 'Ne') and derives_from(c_[0], lambda x: x[0] == 'field' and x[2] == '0' and x[1][0] == 'call') for c_ in p.conds)
+            # `if paddr == 0` (comparison) or `match .. { (0, _) => .. }` (switch on the component itself, 0 excluded)
+            zero_guard = any(c_[0][0] == 'bin' and c_[0][1] in ('Eq', 'Ne') and derives_from(c_[0], lambda x: x[0] == 'field' and x[2] == '0' and x[1][0] == 'call') for c_ in p.conds) or \
+                any(strip_conv(c_[0])[0] == 'field' and strip_conv(c_[0])[2] == '0' and strip_conv(c_[0])[1][0] == 'call' and c_[1][0] == 'notin' and 0 in c_[1][1] for c_ in p.conds)
             R.check(len(allocs) == 1 and zero_guard, rule, 'ctor:zero-address-checked', where, 'one allocation; zero physical address tested before the owner exists',
                     'constructor Ok path: %d allocations, zero-address test present=%s' % (len(allocs), zero_guard))
         errp = [p for p in paths if err_variant(p.ret) not in ('Ok', None)]
